@@ -93,12 +93,12 @@ Definition trans_case := (list (string * string) * option (list (string * string
 
 Definition ss_eqb' (a b : string * string) : bool := String.eqb (fst a) (fst b) && String.eqb (snd a) (snd b).
 
-Definition trans_agrees (cs : list cls) (c : trans_case) : bool :=
+Definition trans_agrees_with (tr : list (cls * string) -> option (list tnode * imports)) (cs : list cls) (c : trans_case) : bool :=
   let '(calls, obs) := c in
   match map_opt (fun co => option_map (fun k => (k, snd co)) (find_class cs (fst co))) calls with
   | None => false
   | Some cl =>
-    match translate_body cl, obs with
+    match tr cl, obs with
     | None, None => true
     | Some (nodes, imp), Some (onodes, oimp) =>
       list_eqb ss_eqb' (map (fun n => (t_domain n, t_op n)) nodes) onodes &&
@@ -106,6 +106,9 @@ Definition trans_agrees (cs : list cls) (c : trans_case) : bool :=
     | _, _ => false
     end
   end.
+(* as read / with the repaired refusal (C17_strict_refusal_every_call_resolves) *)
+Definition trans_agrees := trans_agrees_with translate_body.
+Definition trans_agrees_strict := trans_agrees_with translate_body_strict.
 
 (* observed lookup history: in one fresh state, opset (d, N1)[op] then opset (d, N2)[op]; since_versions found *)
 Definition hist_case := (string * string * Z * Z * option Z * option Z)%type.
